@@ -25,7 +25,7 @@ def main():
         del args[i:i + 2]
     scope = json.load(open(os.path.join(HERE, 'reference', 'scope.json')))
     props = args or sorted(k for k in scope if not k.startswith('_'))
-    prog = Program(repo)
+    prog = Program(repo, alpha=False)
     try:
         commit = subprocess.check_output(['git', '-C', repo, 'rev-parse', 'HEAD'], text=True).strip()
         dirty = bool(subprocess.check_output(['git', '-C', repo, 'status', '--porcelain', '--', 'pyiga', 'scripts'], text=True).strip())
@@ -34,6 +34,18 @@ def main():
     if dirty:
         print('refusing to take a reference from a dirty tree')
         return 1
+    if not args:
+        # every function, for the alpha-normalisation of local names (sa/alpha.py)
+        allf = {}
+        for q, f in sorted(prog.functions.items()):
+            try:
+                text = ast.unparse(f.node)
+                ast.parse(text)
+            except Exception:
+                continue
+            allf[q] = text
+        json.dump(dict(taken_from=commit, functions=allf), open(os.path.join(HERE, 'reference', 'functions.json'), 'w'), indent=0, sort_keys=True)
+        print('functions.json', len(allf), 'functions')
     for p in props:
         pats = scope[p]
         funcs = {}
